@@ -8,7 +8,8 @@ from vf.core import sig_of  # noqa: E402
 ID = "C13"
 LEVEL = "exploration"
 RULE = ("tables as in C12 (fixed and ranged widths, enum modifiers, break-by, repeated fields, hidden ':-1' "
-        "columns, limits via fmt / argument / '*'), followed through their life: fresh -> printed -> re-formatted "
+        "columns, limits via fmt / argument / '*', 12% of the tables with 49-70 records - beyond the default "
+        "30:20 limits -, a field named like an SQL aggregate 'max(d)'), followed through their life: fresh -> printed -> re-formatted "
         "through the setter with a random new format -> printed again -> columns removed -> printed. At each point "
         "s = str(table.fmt) is (1) given to the PPTable constructor with the same records / fields / types / "
         "titles / header / footer, (2) assigned to the fmt setter of the same table; both renderings (no_color) "
@@ -31,21 +32,46 @@ LEVEL_NOTE = "same generator bounds as C12; value_path ('<-') column description
 TECHNIQUE = "runtime monitoring: format-string round trip at every point of a table's life history"
 
 
+def field_names(c):
+    """field 'd' may be called like an SQL aggregate column: 'max(d)'"""
+    return [c.get('d_alias') or f if f == 'd' else f for f in T.FIELDS]
+
+
+def alias_fmt(c, fmt):
+    """the generated format strings call the 4th field 'd': rename it in the column descriptions"""
+    alias = c.get('d_alias')
+    if not alias or not fmt:
+        return fmt
+    cols, sep, rest = fmt.partition(";")
+    out = []
+    for col in cols.split(","):
+        out.append(alias + col[1:] if col[:1] == 'd' and col[1:2] in ('', '!', ':', '/') else col)
+    return ",".join(out) + sep + rest
+
+
 def build(c, fmt, limits=None):
-    return PPTable(c['recs'], fields=T.FIELDS, fmt=fmt, limits=limits, header=c['header'], footer=c['footer'],
-                   fields_types=T.mk_field_types(), fields_titles=dict(c['titles']))
+    names = field_names(c)
+    titles = {n: c['titles'][f] for n, f in zip(names, T.FIELDS)}
+    return PPTable(c['recs'], fields=names, fmt=fmt, limits=limits, header=c['header'], footer=c['footer'],
+                   fields_types=T.mk_field_types(), fields_titles=titles)
 
 
 def gen_case(rng):
-    recs = T.gen_records(rng, (0, 1, 3, 6, 10, 13))
+    recs = T.gen_records(rng, (0, 1, 3, 6, 10, 13) if rng.random() < 0.88 else (49, 52, 55, 70))
     fmt, _, limits = T.gen_fmt(rng, allow_hidden=True)
+    if len(recs) > 40 and rng.random() < 0.6:
+        fmt = fmt.split(";")[0] + rng.choice([";*", ";80:80", ";60:5"])
     lim_arg = rng.choice([None, None, None, (1, 1), (0, 2), (2, 0)])
     fmt2, _, _ = T.gen_fmt(rng, allow_hidden=True)
     if rng.random() < 0.3:
         # partial formats: only limits / only columns
         fmt2 = rng.choice([";%d:%d" % (rng.randint(0, 3), rng.randint(0, 3)), ";*", fmt2.split(";")[0]])
     remove = rng.sample(T.FIELDS, rng.randint(0, 2))
-    return dict(recs=recs, fmt=fmt, lim_arg=lim_arg, fmt2=fmt2, remove=remove,
+    d_alias = rng.choice([None, None, None, "max(d)", "d(x)"])
+    c0 = {'d_alias': d_alias}
+    fmt, fmt2 = alias_fmt(c0, fmt), alias_fmt(c0, fmt2)
+    remove = [d_alias if (f == 'd' and d_alias) else f for f in remove]
+    return dict(recs=recs, fmt=fmt, lim_arg=lim_arg, fmt2=fmt2, remove=remove, d_alias=d_alias,
                 header=rng.choice([None, "hdr"]), footer=rng.choice([None, "f", ""]),
                 titles={f: rng.choice(T.TITLES_POOL[f]) for f in T.FIELDS})
 
